@@ -24,7 +24,7 @@ def family(tier):
     return _ALL[tier]
 
 
-NB, NR = 6, 5  # predicate / step value streams
+NB, NR = 6, 5  # predicate / step value streams (quick tier: only the first 3 step values are symbolic, the rest 0)
 
 
 def run_outline(desc, name, bools, rets):
@@ -47,6 +47,13 @@ def run_outline(desc, name, bools, rets):
             return None
         if r == 1:
             return plumpy.ToContext()
+        if r == 2 or r == 3:
+            # registers an (already completed) awaitable through to_context(); code 3 additionally returns a value,
+            # which must stop the chain like any other value that is neither None nor a context assignment
+            f = plumpy.Future()
+            f.set_result(k)
+            _self.to_context(**{f'aw{k}': f})
+            return None if r == 2 else 33
         return r
 
     outlines.ENV['pred'], outlines.ENV['step'] = pred, step
@@ -75,10 +82,12 @@ def reference(desc, bools, rets):
         if k >= len(rets):
             return None
         r = rets[k]
-        if r == 0:
+        if r == 0 or r == 2:
             return None
         if r == 1:
             return {}
+        if r == 3:
+            return 33
         return r
 
     trace, last, ended_by_pred = outlines.interpret(desc, step, pred)
@@ -102,6 +111,8 @@ def check(desc, name, bools, rets):
         NOTES.witness('steps_and_predicates')
     if isinstance(eresult, int) and not isinstance(eresult, bool):
         NOTES.witness('stopped_with_value')
+    if any(x == 3 for x in rets[:nstep]):
+        NOTES.witness('value_returned_after_to_context')
     NOTES.info = dict(outline=repr(desc)[:160], trace=[f'{a}{b}' for a, b in trace][:24])
 
 
@@ -112,6 +123,8 @@ TIERS = ['quick', 'thorough']
 def outline(tq: int, lo: int, off: int, b0: bool, b1: bool, b2: bool, b3: bool, b4: bool, b5: bool, r0: int, r1: int, r2: int,
             r3: int, r4: int):
     tier = TIERS[tq]
+    if tier == 'quick':
+        assume(r3 == 0 and r4 == 0)
     fam = family(tier)
     k = pick(off, GROUP[tier])
     assume(lo + k < len(fam))
@@ -135,7 +148,7 @@ def shards(tier):
 BOUNDS = {
     'quick': dict(outlines='all outlines with <= 4 instructions and nesting depth <= 2 (plus 6 hand-picked deeper ones); return_ codes None/7',
                   predicate_values=f'{NB} symbolic bools consumed in call order, False afterwards (loop-unrolling bound)',
-                  step_values=f'{NR} symbolic ints consumed in call order: 0 -> None, 1 -> empty ToContext, other -> that int (stops the chain); None afterwards'),
+                  step_values=f'3 symbolic ints (thorough: {NR}) consumed in call order: 0 -> None, 1 -> empty ToContext, 2 -> to_context(done future) and None, 3 -> to_context(done future) and 33 (stops), other -> that int (stops the chain); None afterwards'),
     'thorough': dict(outlines='all outlines with <= 5 instructions, depth <= 2, plus every 7th outline with exactly 6 instructions, depth <= 3',
                      predicate_values=f'{NB} symbolic bools', step_values=f'{NR} symbolic ints'),
 }
@@ -145,6 +158,6 @@ RULE = 'paths over (outline, predicate truth values, step return values); non-tr
 SOLVER_ROLE = 'data role: predicate truth values and step return codes are symbolic; the solver splits on every branch the real stepper code takes on them and certifies exhaustion; the reference interpreter runs on the same symbolic values in the same path'
 EXPLANATION = 'differential check of the stepper classes against a 40-line structured-program interpreter written from the statement'
 ASSUMPTIONS = ['predicates return real bools; steps return None, an empty context assignment or an int']
-REQUIRED_WITNESSES = ['predicate_stream_exhausted_loop_bound', 'steps_and_predicates', 'stopped_with_value']
+REQUIRED_WITNESSES = ['predicate_stream_exhausted_loop_bound', 'steps_and_predicates', 'stopped_with_value', 'value_returned_after_to_context']
 LEVEL_TEXT = ('bounded exhaustive symbolic exploration: for every outline of the bounded family and all predicate/return value sequences the ordered trace of '
               'step and predicate calls and the result equal those of an independent structured-program interpreter')
